@@ -589,7 +589,13 @@ Definition obs_ok (r : result) (o : obs) : bool :=
   | _, _ => false
   end.
 
-Fixpoint conc_ok (c : cfg) (bl : list Z -> Z -> bool) (w : world) (steps : list (sched_step * obs * csnap)) : bool :=
+Definition cdata_eqb (a b : cstate) : bool :=
+  table_eqb (c_mem a) (c_mem b) && list_eqb table_eqb (map snd (c_imm a)) (map snd (c_imm b)) &&
+  levels_eqb (map (map tdata) (c_levels a)) (map (map tdata) (c_levels b)) &&
+  (c_ncomp a =? c_ncomp b) && (c_nflush a =? c_nflush b).
+
+(** [None] as snapshot = the implementation's state did not change in this segment *)
+Fixpoint conc_ok (c : cfg) (bl : list Z -> Z -> bool) (w : world) (steps : list (sched_step * obs * option csnap)) : bool :=
   match steps with
   | [] => true
   | (s, o, sn) :: rest =>
@@ -604,11 +610,12 @@ Fixpoint conc_ok (c : cfg) (bl : list Z -> Z -> bool) (w : world) (steps : list 
           let '(st', r) := seg c bl st a in
           let oid := match s with SStart i _ | SResume i => i end in
           let ks' := match r with RYield _ k => (oid, k) :: kdel oid ks | RDone _ => kdel oid ks end in
-          obs_ok r o && csnap_eqb st' sn && conc_ok c bl (st', ks') rest
+          obs_ok r o && match sn with Some sn => csnap_eqb st' sn | None => cdata_eqb st st' end &&
+          conc_ok c bl (st', ks') rest
       end
   end.
 
-Definition ok_lsm_conc (case : cfg * list (list Z * Z) * list (sched_step * obs * csnap)) : bool :=
+Definition ok_lsm_conc (case : cfg * list (list Z * Z) * list (sched_step * obs * option csnap)) : bool :=
   let '(c, fps, steps) := case in conc_ok c (bl_of fps) (c_init c, []) steps.
 
 (* ------------------------------------------------------------------ *)
